@@ -452,6 +452,19 @@ def exec_web(case):
                         sig="C41.modified-without-authority.%s.%s" % (op["kind"], op.get("t", "")))
                 else:
                     probe("authorized-change")
+            # "made through a read-only or verify capability ... is refused and changes nothing on the grid": the capability
+            # the request is made *through* is the one in the URL path; a write cap mentioned in the query or body (to_dir=,
+            # uri=) does not turn it into a request made through a write cap
+            url_path = uri.split(b"?", 1)[0]
+            url_rw = [m for m in RW_CAP.findall(url_path) if m in all_rw]
+            if would_modify(op) and not url_rw and not overlapped:
+                probe("modifying-request-through-readonly-url")
+                known_changed = [si_s for si_s in changed if by_si.get(base32.a2b(si_s.encode("ascii"))) is not None]
+                if known_changed:
+                    bad("readonly-request-changed-grid",
+                        "%s is made through a %s cap, would modify, and (status %s) changed the shares of %r" % (
+                            where, facts["flavour"], code, sorted(by_si[base32.a2b(x_.encode("ascii"))]["name"] for x_ in known_changed)),
+                        sig="C41.readonly-request-changed-grid.%s.%s" % (op["kind"], op.get("t", "")))
             if not presented and would_modify(op):
                 probe("modifying-request-without-write-cap")
                 if code is not None and code < 400 and changed == [] and not overlapped and op["kind"] in ("put-file", "delete", "put-mutable-offset", "post-file-upload"):
